@@ -142,6 +142,7 @@ def run(check, ctx):
     check.floor("K", 60)
     from . import c15_extra
     c15_extra.run(check, ctx, cipher_self, MODELS)
+    c15_extra.hpke_history_rows(check, repo)
     # DH(skX, pkY) of RFC 9180 7.1.4: a neutral result must be refused (it would make the shared secret predictable)
     from .c06_extra import ecdh_neutral_rule
     ecdh_neutral_rule(check, repo)
